@@ -133,7 +133,7 @@ def main(argv=None) -> int:
 
     # 1. translator
     try:
-        ext = extract.generate()
+        ext = extract.generate(write=not os.environ.get("VERIF_NO_EXTRACT"))
     except Exception as e:
         ext = {"_error": str(e)}
     changed = {k: v for k, v in ext.items() if isinstance(v, dict) and v.get("changed")}
@@ -141,13 +141,14 @@ def main(argv=None) -> int:
 
     # 2. build
     modules = sorted({m for u in units for m in u.lean_modules})
-    bres = leanio.build_each(modules + ["driver"])
+    drivers = sorted({d for u in units for d in u.drivers})
+    bres = leanio.build_each(modules + drivers)
     built = {m for m, (ok, _) in bres.items() if ok}
     for m, (ok, out) in bres.items():
         if not ok:
             broken.append({"kind": "lean-build", "name": m, "detail": out[-3000:],
                            "extracted_params_changed": changed})
-    driver_ok = "driver" in built
+    driver_ok = all(d in built for d in drivers)
 
     # 3. hygiene + axioms
     hyg = leanio.hygiene()
@@ -271,7 +272,9 @@ def main(argv=None) -> int:
         "wall_s": round(time.time() - t0, 2),
         "violations": len(fresh) + (1 if (broken and not fresh) else 0),
     }
-    common.jdump(ev, os.path.join(common.EVIDENCE_DIR, f"{prop}.json"))
+    partial = bool(a.only) or bool(os.environ.get("RL4CO_REPO")) or bool(os.environ.get("VERIF_SCRATCH"))
+    evdir = os.path.join("/tmp", f"verif-scratch-evidence-{os.getuid()}") if partial else common.EVIDENCE_DIR
+    common.jdump(ev, os.path.join(evdir, f"{prop}.json"))
     print(f"{prop} {tier} seed={seed}: theorems {discharged}/{obligations} audited, {evaluations} correspondence cases "
           f"({distinct} distinct), broken ties {len(broken)}, violations {len(fresh)}, {ev['wall_s']}s -> exit {rc}")
     return rc
